@@ -151,7 +151,7 @@ func (c *chooser) next(k *kase) (step, bool) {
 			switch {
 			case x < 30:
 				if live && len(parked) < 5 {
-					text = "N:" + r.Pick([]string{"G", "G", "P"})
+					text = "N:" + r.Pick([]string{"G", "G", "G", "P", "P", "W"})
 				}
 			case x < 58:
 				if len(parked) > 0 {
@@ -159,10 +159,12 @@ func (c *chooser) next(k *kase) (step, bool) {
 					out := r.Pick(answerPick)
 					if k.reqs[rid].streaming {
 						out = "se"
+					} else if k.reqs[rid].ws && r.Chance(1, 2) {
+						out = "wu"
 					} else if r.Chance(1, 9) {
 						out = "sb"
 					}
-					if q := k.reqs[rid]; !q.streaming && out != "sb" && q.cfg.st.lat && q.cfg.st.p && c.slow < 2 && r.Chance(1, 3) {
+					if q := k.reqs[rid]; !q.streaming && out != "sb" && out != "wu" && q.cfg.st.lat && q.cfg.st.p && c.slow < 2 && r.Chance(1, 3) {
 						out = "sl"
 						c.slow++
 					}
